@@ -199,6 +199,80 @@ theorem gen_sort {α : Type} (lt : α → α → Bool) :
                  · simp only [c2, ne_eq, not_false_eq_true, if_true, if_false] at h ⊢
                    exact ih _ _ _ _ c2 h)
 
+/-- For the spelling of the pinned header (`sortIsDoWhile`, set by the translator: the do-while partition loop inside `sort`, two
+    recursive calls) the translated `QuickSort::sort` IS the model's `qsortG`: same result AND same faults (a null `next`
+    followed, fuel exhausted) for every heap, range, comparison, element type and fuel.  For another spelling the translator
+    sets the flag to `false` and only the simulation `gen_sort` is claimed. -/
+theorem gen_sort_exact {α : Type} (lt : α → α → Bool) (hshape : SeqSort.sortIsDoWhile = true) :
+    ∀ (fuel : Nat) (p : PtrG.GHeap α) (left right : Nat),
+      SeqSort.sort lt fuel p left right = PtrG.qsortG lt fuel p left right := by
+  first
+  | (have hloop : ∀ (left right fuel : Nat) (p : PtrG.GHeap α) (p0 p1 p2 : Nat),
+        SeqSort.sort_loop1 lt fuel p left right p0 p1 p2 =
+          (PtrG.ploopG lt left right fuel p p0 p1 p2).map (fun r => (r.heap, left, right, r.p0, r.p1, right)) := by
+       intro left right fuel
+       induction fuel with
+       | zero => intro p p0 p1 p2; rfl
+       | succ f ih =>
+         intro p p0 p1 p2
+         simp only [SeqSort.sort_loop1, PtrG.ploopG]
+         cases hn : p.next p2 with
+         | none => rfl
+         | some q2 =>
+           simp only []
+           by_cases hlt : lt (p.val q2) (p.val left) = true
+           · simp only [hlt, if_true]
+             cases hn1 : p.next p1 with
+             | none => rfl
+             | some q1 =>
+               simp only [gen_sort_swap]
+               by_cases hq : q2 = right
+               · subst hq; simp
+               · simp only [ne_eq, hq, not_false_eq_true, if_true, ih]
+           · simp only [hlt, Bool.false_eq_true, if_false]
+             by_cases hq : q2 = right
+             · subst hq; simp
+             · simp only [ne_eq, hq, not_false_eq_true, if_true, ih]
+     have hexact : ∀ (fuel : Nat) (p : PtrG.GHeap α) (left right : Nat),
+        SeqSort.sort lt fuel p left right = PtrG.qsortG lt fuel p left right := by
+       intro fuel
+       induction fuel with
+       | zero => intro p left right; rfl
+       | succ f ih =>
+         intro p left right
+         simp only [SeqSort.sort, PtrG.qsortG, hloop]
+         cases hpl : PtrG.ploopG lt left right (f + 1) p left left left with
+         | none => rfl
+         | some r =>
+           simp only [Option.map_some, gen_sort_swap, ih]
+           by_cases h1 : r.p1 = right
+           · by_cases h2 : left = r.p0
+             · simp [h1, h2]
+             · simp only [h1, h2, ne_eq, not_true_eq_false, not_false_eq_true, if_true, if_false]
+               cases PtrG.qsortG lt f (PtrG.swapVal r.heap left right) left r.p0 <;> rfl
+           · simp only [h1, ne_eq, not_false_eq_true, if_true]
+             cases hq : (PtrG.swapVal r.heap left r.p1).next r.p1 with
+             | none => rfl
+             | some q1 =>
+               simp only []
+               by_cases h2 : left = r.p0
+               · simp only [h2, ne_eq, not_true_eq_false, if_false]
+                 by_cases h3 : q1 = right
+                 · simp [h3]
+                 · simp only [h3, ne_eq, not_false_eq_true, if_true]
+                   cases PtrG.qsortG lt f (PtrG.swapVal r.heap r.p0 r.p1) q1 right <;> rfl
+               · simp only [h2, ne_eq, not_false_eq_true, if_true]
+                 cases PtrG.qsortG lt f (PtrG.swapVal r.heap left r.p1) left r.p0 with
+                 | none => rfl
+                 | some h2' =>
+                   simp only []
+                   by_cases h3 : q1 = right
+                   · simp [h3]
+                   · simp only [h3, ne_eq, not_false_eq_true, if_true]
+                     cases PtrG.qsortG lt f h2' q1 right <;> rfl
+     exact hexact)
+  | exact absurd hshape (by decide)
+
 /-- `List<T>::sort()` with the TRANSLATED quicksort in place of the model's (the public wrapper — return for 0 or 1 element,
     else `QuickSort::sort(_begin.item, endItem.prev)` — is shape-checked by the translator): for every element type, every
     comparison function and every heap whose `next` links run through the pairwise distinct item addresses `xs` holding the
